@@ -103,6 +103,14 @@ func buildIntrinsics() map[string]Intrinsic {
 		t[p+"vChoose"] = func(m *Machine, fr *Frame, fn *ssa.Function, a []Value) Value {
 			n := int(m.concreteInt(fr, a[1].(*Term), "vChoose n"))
 			v := m.newInput(m.str(a[0]), 64)
+			if pin, ok := m.cfg.Params["pin."+m.str(a[0])]; ok && n > 0 {
+				if int(pin) >= n {
+					panic(pathAbort{"assume", "pinned choice out of range"})
+				}
+				c := m.tf.Const(64, uint64(pin))
+				m.addPC(m.tf.Eq(v, c))
+				return c
+			}
 			if n <= 0 {
 				panic(pathAbort{"assume", "vChoose over empty range"})
 			}
